@@ -31,6 +31,20 @@ func runC18(c *Ctx) {
 				R.Fail("R18.1", fn+"#goroutine", sp.Pos(), fn, "the lookup goroutine does not take the address as its own parameter: it would capture the loop variable")
 				continue
 			}
+			// every address gets its own lookup: the go statement is passed on every iteration of the range loop
+			if loop := innermostLoop(f, sp.Block()); loop != nil {
+				every := true
+				for b := range loop {
+					for _, sx := range b.Succs {
+						if loop[sx] && sx.Dominates(b) && sx != b && !sp.Block().Dominates(b) {
+							every = false
+						}
+					}
+				}
+				R.Check(every, "R18.1", fn+"#one-lookup-per-address", sp.Pos(), fn, "a lookup goroutine is started for every element of the input", "some iterations skip the lookup goroutine: addresses that differ only in representation (4-byte vs 16-byte form) or that were 'seen' never get their names although the reader asks for them by their own bytes")
+			} else {
+				R.Fail("R18.1", fn+"#one-lookup-per-address", sp.Pos(), fn, "the lookup goroutine is not started from a loop over the input")
+			}
 			// argument at the go statement is the range element
 			for _, pa := range firstPath(f, sp.Block()) {
 				env := core.NewEnv(c.P, pa)
